@@ -204,8 +204,8 @@ TFSA ==
               /\ ChOf(ev.changes, p).t = plan.fs[p].t /\ ChOf(ev.changes, p).c = plan.fs[p].c /\ ChOf(ev.changes, p).info
         /\ \A p \in obs : dirish(p) => ChOf(ev.changes, p).t \in {plan.fs[p].t, fs[p].t}
         /\ fs' = [p \in DOMAIN fs |-> IF p \notin obs THEN fs[p]
-                                     ELSE IF dirish(p) THEN [fs[p] EXCEPT !.t = ChOf(ev.changes, p).t, !.s = @ + 1]
-                                     ELSE plan.fs[p]]
+                                     ELSE IF dirish(p) /\ plan.fs[p] = fs[p] THEN [fs[p] EXCEPT !.t = ChOf(ev.changes, p).t, !.s = @ + 1]
+                                     ELSE plan.fs[p]]          \* (the stamp the planned build gives it: stored infos refer to it)
   /\ UNCHANGED <<desc, mem, db, epoch, hasdb, last, plan>> /\ Keep
 TDBA ==
   /\ Is("DB") /\ HavePlan /\ aborting /\ ev.ok
